@@ -5,3 +5,4 @@
 pub mod control_points;
 pub mod utf8;
 pub mod curve;
+pub mod framing;
